@@ -1,6 +1,6 @@
 """C03 — state learned from a manifest never outlives that manifest (structural clauses)."""
 from sa.canon import canon, norm, statements, V, C
-from sa.paths import gate_check, Cfg, loops, local_writes
+from sa.paths import gate_check, Cfg, loops, local_writes, must_precede
 from sa.flow import origin_chain, value_sources, field_accesses, all_defs
 from sa.match import holds, comparison, const_value, has_value
 from sa.build import AnalysisBroken
@@ -124,6 +124,11 @@ def run(ck):
         for i, m, w in field_accesses(f):
             if w and m == N + 'manifest_cache_':
                 effs.append(('manifest_cache_ write', i, None))
+        if q == N + 'ingest_manifest':
+            # accepting a manifest is itself an effect: `return true` (callers cache the manifest and update the ledger on it)
+            for i in f.walk():
+                if f.nodes[i]['k'] == 'ReturnStmt' and f.kids(i) and const_value(f, f.kids(i)[0]) not in (0,):
+                    effs.append(('return accepted', i, None))
         if q == N + 'fetch_chunk':
             effs = [e for e in effs if e[0] == 'dht_.publish_shards']
         n_eff += len(effs)
@@ -202,6 +207,15 @@ def run(ck):
     me = [(l, r, s) for l, r, s in assignments(sf) if sf.nodes[sf.strip(l)].get('n') == 'manifest_expires']
     ok = len(me) == 1 and norm(canon(sf, me[0][1])) == ('m', V('manifest'), 'expires_at')
     ck.ob('C03.pending', 'C03.pending/expiry-recorded', ok, sf.loc(), 'a pending fetch records manifest.expires_at as its deadline')
+    # ... whenever it records the manifest (the URI): a re-announcement carrying a new manifest also carries that manifest's deadline
+    uri = [s_ for l, r, s_ in assignments(sf) if sf.nodes[sf.strip(l)].get('n') == 'manifest_uri']
+    cfg_sf = Cfg.of(sf)
+    paired = bool(me) and bool(uri) and all(
+        cfg_sf.must_pass(u_, lambda e, t_=me[0][2]: e == t_ or sf.is_in(t_, e) and sf.nodes[e]['k'] == 'ExprWithCleanups') is None or
+        not must_precede(sf, [u_], lambda e, t_=me[0][2]: e == t_ or sf.is_in(t_, e) and sf.nodes[e]['k'] == 'ExprWithCleanups') for u_ in uri)
+    ck.ob('C03.pending', 'C03.pending/expiry-recorded-with-every-manifest', paired, sf.loc(me[0][2]) if me else sf.loc(),
+          'every path of schedule_assigned_fetch that stores the announced manifest URI in the pending state also stores that manifest\'s expires_at '
+          '(not only when the entry is first created)')
     pf = P.fn(N + 'process_pending_fetches')
     ck.touch(pf)
     lp = [l for l in loops(pf) if pf.nodes[l]['k'] == 'CXXForRangeStmt' and 'pending_chunk_fetches_' in pf.text(pf.nodes[l]['range'])]
